@@ -10,7 +10,7 @@ TRUSTED_BASE = [
     "Coq 8.16.1 kernel; vm_compute only in Examples/refutation witnesses; no native_compute",
     "translator (serial arithmetic, isReassemblyQueueLimitReached) + hand-written model coq/model/RQ.v of "
     "reassembly_queue.go and of getMyReceiverWindowCredit/acceptPayloadData (association.go); canPush from coq/model/RPQ.v",
-    "extraction (ExtrOcamlBasic only) + /verif/ocaml/cmp_rq.ml; Go harness zz_verif_rq_test.go, zz_verif_rqmon_test.go (overlay)",
+    "extraction (ExtrOcamlBasic only) + /verif/ocaml/cmp_rq.ml; Go harness zz_verif_rq_test.go, zz_verif_rqmon_test.go, zz_verif_rqdrain_test.go (overlay)",
     "modelled, not verified: sort.Slice is the transcribed insertion sort (Go's algorithm for n <= 12); above 12 elements the "
     "differential only generates slices whose keys are distinct within a quarter of the number space (strict total order), where "
     "every sort agrees - no theorem depends on the sort beyond its being a permutation; orderedMIDMap is the orderedMID slice "
@@ -19,7 +19,9 @@ TRUSTED_BASE = [
 ASSUMPTIONS = [
     "hypothesis of the counter theorems: payload bytes pushed over the whole history < 2^63 (uint64 counter read through int())",
     "association level: a_rwnd / admission are pure functions of (buffer, counters of the streams in the map, TSN bitmap); their "
-    "call sites are exercised by the bare-association monitor TestVerifRQWindow (handleChunk), not by a step check of the full association",
+    "call sites are exercised by the bare-association monitors TestVerifRQWindow and TestVerifRQDrain (handleChunk: sender-like traffic with "
+    "losses, duplicates, FORWARD-TSN / I-FORWARD-TSN built as a sender builds them, hostile TSNs anywhere in the number space; at the end "
+    "everything is abandoned or read and the window must be the whole buffer), not by a step check of the full association",
 ]
 
 
@@ -38,6 +40,9 @@ def correspondence(ctx):
     vlib.monitor(ctx, "assoc-window-on-implementation", "TestVerifRQWindow",
                  {"VERIF_N": ctx.scale(120, 3000), "VERIF_OPS": 250, "VERIF_CORPUS": os.path.join(vlib.VERIF, "corpus/rqwin.ops")},
                  fail_prefixes=("RQWIN ",), classify=_key, summary_prefix="RQWINSUM")
+    vlib.monitor(ctx, "assoc-drain-to-full-window", "TestVerifRQDrain",
+                 {"VERIF_N": ctx.scale(300, 6000), "VERIF_OPS": 200},
+                 fail_prefixes=("RQDRAIN ",), classify=_key, summary_prefix="RQDRAINSUM")
 
 
 def search(ctx):
